@@ -869,10 +869,25 @@ impl<'w, P: PoolAdapter + 'static> PoolSim<'w, P> {
 				}
 				for id in &new_ids {
 					let b = self.world.blocks[*id].block.clone();
+					let head_before = self.head;
+					let pool_before = (self.pooled_kernels(false), self.pooled_kernels(true));
 					if let Err(e) = self.chain.process_block(b, self.world.opts) {
 						return Err(viol("fork-block-refused", format!("step {}: node refused fork block #{}: {:?}", self.step, id, e)));
 					}
 					self.absorb_block_events();
+					// C06: a block accepted onto a fork that does not become the head leaves the node as it
+					// was - its pool included (what it holds decides how later compact blocks are hydrated
+					// and which transactions it still relays)
+					if self.head == head_before {
+						self.probe("losing_fork_block_delivered_with_pool_watch");
+						let pool_after = (self.pooled_kernels(false), self.pooled_kernels(true));
+						if pool_after != pool_before {
+							return Err(viol(
+								"losing-fork-block-changed-pool",
+								format!("step {}: fork block #{} did not become the head, yet the pool went from {} (+{} stem) to {} (+{} stem) kernels", self.step, id, pool_before.0.len(), pool_before.1.len() - pool_before.0.len(), pool_after.0.len(), pool_after.1.len() - pool_after.0.len()),
+							));
+						}
+					}
 				}
 				self.probe("reorg_op");
 				format!("reorg depth {} via {} blocks", depth, new_ids.len())
@@ -1622,6 +1637,57 @@ pub fn case_c13(tier: &str, seed: u64, case: u64) -> CaseResult {
 	res
 }
 
+/// Pool clauses of C06: a submission, accepted or refused, never changes chain state, and a block
+/// accepted onto a fork that does not become the head leaves the pool as it was. Other pool
+/// invariants are C14's business and merely counted here.
+pub fn case_c06(tier: &str, seed: u64, case: u64) -> CaseResult {
+	let t0 = Instant::now();
+	let thorough = tier == "thorough";
+	let mut res = CaseResult::new(case, seed);
+	let (mut world, start) = match build_world(seed) {
+		Ok(w) => w,
+		Err(e) => {
+			res.harness_error = Some(format!("pool world: {}", e));
+			return res;
+		}
+	};
+	let runs = if thorough { 12 } else { 4 };
+	let rng = SimRng::new(seed);
+	for run in 0..runs {
+		let mut rr = rng.fork(&format!("pool06-{}", run));
+		let mut ops = gen_ops(&mut rr, thorough);
+		// more forks arriving while the pool is not empty: deep enough that the first fork blocks lose
+		for _ in 0..3 {
+			let at = rr.usize_below(ops.len() + 1);
+			ops.insert(at, Op::Reorg { depth: rr.range(2, 3), r: rr.next_u64() });
+			ops.insert(at, Op::Submit { kind: Submit::Valid, stem: false, r: rr.next_u64() });
+			ops.insert(at, Op::Submit { kind: Submit::Valid, stem: true, r: rr.next_u64() });
+		}
+		let mode = if run % 2 == 1 { Mode::Net { with_relay: true } } else { Mode::Direct };
+		let (v, digest, log, steps) = run_ops_mode(&mut world, start, &ops, &format!("pool06-c{}r{}", case, run), Some(&mut res), mode);
+		res.runs += 1;
+		res.steps += steps;
+		res.run_digests.push((digest, true));
+		res.extra.insert("poolsim_runs".into(), json!(res.runs));
+		if let Some(v) = v {
+			let relevant = v.key == "C14:losing-fork-block-changed-pool" || v.key == "C14:submission-changed-chain-state";
+			if relevant {
+				res.violations.push(Violation {
+					key: v.key.replace("C14:", "C06:pool-"),
+					what: format!("pool clause: {}", v.what),
+					replay: json!({"engine": "poolsim", "property": "C06", "case_seed": seed, "mode": mode.name(), "ops": serde_json::to_value(&ops).unwrap(), "log": log.iter().rev().take(6).cloned().collect::<Vec<_>>()}),
+				});
+				break;
+			} else {
+				res.probe("pool_invariant_violation_left_to_C14");
+			}
+		}
+	}
+	world.cleanup();
+	res.wall_s = t0.elapsed().as_secs_f64();
+	res
+}
+
 pub fn case(tier: &str, seed: u64, case: u64) -> CaseResult {
 	let t0 = Instant::now();
 	let thorough = tier == "thorough";
@@ -1660,6 +1726,11 @@ pub fn case(tier: &str, seed: u64, case: u64) -> CaseResult {
 			res.samples.push(json!({"ops": ops.iter().take(14).map(|o| format!("{:?}", o)).collect::<Vec<_>>(), "log_tail": log.iter().rev().take(4).cloned().collect::<Vec<_>>()}));
 		}
 		if let Some(v) = v {
+			if v.key == "C14:losing-fork-block-changed-pool" {
+				// a statement of C06 (checked by its pool cases), not of C14: an emptied pool is still a valid one
+				res.probe("violation_left_to_C06");
+				continue;
+			}
 			let key = v.key.clone();
 			let mut n = 0;
 			let min_ops = crate::sim::ddmin(
